@@ -161,15 +161,25 @@ func (root *Root) resolve(
 		// will be nil so check for a @go directive then a type argument that
 		// matches the object type. If there is a match then set the meta.
 		objType := reflect.TypeOf(obj)
+		var merr error
 		for _, m := range tt.Members {
 			if ot, _ := m.(*Object); ot != nil { // already checked in validation
 				if meta, err := ot.metaCheck(objType); err != nil {
-					return nil, []error{err}
+					// Not an error if the object is one of the other members so
+					// keep looking. Which members have been bound already must
+					// not decide whether a later member is reached.
+					if merr == nil {
+						merr = err
+					}
 				} else if objType == meta {
+					merr = nil
 					result, ea = root.resolveFieldSels(obj, vars, field, m, depth-1)
 					break
 				}
 			}
+		}
+		if merr != nil {
+			return nil, []error{merr}
 		}
 	default:
 		// Validation makes sure all output types are valid so no need to
